@@ -36,6 +36,7 @@ type op struct {
 	typ   int
 	mid   int
 	sleep time.Duration
+	nest  []op // calls the Stream makes from inside the first callback of this call
 }
 
 type rec struct {
@@ -45,9 +46,11 @@ type rec struct {
 }
 
 type stream struct {
-	cur  *rec
-	ids  map[*auparse.AuditMessage]int
-	info map[int][2]int64 // mid -> seq, type
+	cur       *rec
+	ids       map[*auparse.AuditMessage]int
+	info      map[int][2]int64 // mid -> seq, type
+	onDeliver func(seq uint32) // re-entrant streams call back into the Reassembler from here
+	pending   []op
 }
 
 func (s *stream) ident(m *auparse.AuditMessage) string {
@@ -78,6 +81,9 @@ func (s *stream) ReassemblyComplete(msgs []*auparse.AuditMessage) {
 	} else {
 		s.cur.text = append(s.cur.text, "deliver empty")
 	}
+	if s.onDeliver != nil && len(msgs) > 0 {
+		s.onDeliver(msgs[0].Sequence)
+	}
 }
 
 func (s *stream) EventsLost(n int) {
@@ -98,8 +104,11 @@ func gen(r *sx.Rng, idx int) (maxSize int, timeout time.Duration, ops []op, kind
 		timeout = timeouts[1]
 	case tw < 45:
 		timeout = timeouts[2]
-	default:
+	case tw < 90:
 		timeout = timeouts[3]
+	default:
+		// "never": timeouts so large that now+timeout leaves the int64 nanosecond range (no event may expire)
+		timeout = sx.Pick(r, []time.Duration{time.Duration(1<<63 - 1), 250 * 365 * 24 * time.Hour, time.Duration(1<<62 + 12345)})
 	}
 	sizes := []int{0, 1, 2, 3, 5, 11, 40}
 	maxSize = sx.Pick(r, sizes)
@@ -109,6 +118,14 @@ func gen(r *sx.Rng, idx int) (maxSize int, timeout time.Duration, ops []op, kind
 		kind = "hostile"
 	} else if sk >= 88 {
 		kind = "restart"
+	}
+	if kind == "windowed" && r.Chance(1, 7) {
+		// callbacks that call back; expiry decided without waiting (no 0 / 30 ms timeouts: the outer call's clock stamps bracket the nested calls)
+		kind = "reentrant"
+		if timeout == 0 || timeout == 30*time.Millisecond {
+			timeout = time.Hour
+		}
+		maxSize = sx.Pick(r, []int{1, 2, 3, 5})
 	}
 	if kind != "windowed" && maxSize > 11 {
 		maxSize = 11
@@ -126,6 +143,30 @@ func gen(r *sx.Rng, idx int) (maxSize int, timeout time.Duration, ops []op, kind
 	closedAt := -1
 	if r.Chance(1, 12) {
 		closedAt = r.Intn(n)
+	}
+	if kind == "reentrant" && r.Chance(1, 2) {
+		// a batch of two events is being delivered while the Stream's nested call evicts two more:
+		// A(s) B(s+1) done(s+1) D(s+2) E(s+3) done(s+3) done(s) -> [A, B] go out, D (incomplete) keeps E (complete) behind it;
+		// from inside the first callback: done(s+2) (or an overflow, or Maintain after it) -> D and E go out in the nested call
+		if maxSize < 5 {
+			maxSize = 5
+		}
+		timeout = time.Hour
+		s0 := base + cur
+		push := func(seq uint32, typ int) op { o := op{kind: opPush, seq: seq, typ: typ, mid: mid}; mid++; return o }
+		ops = append(ops, push(s0, 1300), push(s0+1, 1300), push(s0+1, 1320), push(s0+2, 1300), push(s0+3, 1300), push(s0+3, 1320))
+		if r.Chance(1, 2) {
+			ops = append(ops, push(s0+4, 1300), push(s0+4, 1320))
+		}
+		last := push(s0, 1320)
+		nest := []op{{kind: opPush, seq: s0 + 2, typ: sx.Pick(r, []int{1320, 1320, 1100}), mid: 90000}}
+		if r.Chance(1, 3) {
+			nest = append(nest, op{kind: opMaintain})
+		}
+		last.nest = nest
+		ops = append(ops, last)
+		cur += 5
+		n = r.Intn(6)
 	}
 	for i := 0; i < n; i++ {
 		var o op
@@ -230,29 +271,40 @@ func runCase(seed uint64, idx int) (coq string, desc map[string]interface{}, cls
 		panic(err)
 	}
 	start := time.Now()
-	recs := make([]*rec, len(ops))
-	hops := make([]string, len(ops))
+	var recs []*rec
+	var hops []string
 	var text []string
 	deliveries := 0
-	for i, o := range ops {
+	// exec performs one call; calls made from inside a Stream callback are recorded as history entries of their own, right
+	// after the call they are nested in (whose state change - Put and CleanUp - is complete before any callback runs)
+	var exec func(o op)
+	exec = func(o op) {
 		if o.sleep > 0 {
 			time.Sleep(o.sleep)
 			text = append(text, "sleep 70ms")
 		}
 		rc := &rec{}
-		recs[i] = rc
+		i := len(recs)
+		recs = append(recs, rc)
+		hops = append(hops, "")
+		outer := s.cur
 		s.cur = rc
+		defer func() { s.cur = outer }()
+		if len(o.nest) > 0 {
+			s.pending = o.nest
+		}
 		switch o.kind {
 		case opPush:
 			m := &auparse.AuditMessage{RecordType: auparse.AuditMessageType(o.typ), Sequence: o.seq, RawData: "id=" + strconv.Itoa(o.mid)}
 			s.ids[m] = o.mid
+			text = append(text, fmt.Sprintf("push seq=%d type=%d", o.seq, o.typ))
 			rc.lo = int64(time.Since(start))
 			ra.PushMessage(m)
 			rc.hi = int64(time.Since(start))
 			hops[i] = fmt.Sprintf("HPush (Some (mk %d %d %d)) %d %d", o.mid, o.seq, o.typ, rc.lo, rc.hi)
-			text = append(text, fmt.Sprintf("push seq=%d type=%d", o.seq, o.typ))
 		case opPushRaw:
 			raw := fmt.Sprintf("audit(1500000000.123:%d): id=%d", o.seq, o.mid)
+			text = append(text, fmt.Sprintf("pushraw seq=%d type=%d", o.seq, o.typ))
 			rc.lo = int64(time.Since(start))
 			err := ra.Push(auparse.AuditMessageType(o.typ), []byte(raw))
 			rc.hi = int64(time.Since(start))
@@ -260,8 +312,8 @@ func runCase(seed uint64, idx int) (coq string, desc map[string]interface{}, cls
 				rc.outs = append(rc.outs, "Panic")
 			}
 			hops[i] = fmt.Sprintf("HPush (Some (mk %d %d %d)) %d %d", o.mid, o.seq, o.typ, rc.lo, rc.hi)
-			text = append(text, fmt.Sprintf("pushraw seq=%d type=%d", o.seq, o.typ))
 		case opPushBadRaw:
+			text = append(text, "pushraw malformed")
 			rc.lo = int64(time.Since(start))
 			err := ra.Push(auparse.AuditMessageType(1300), []byte("audit(1500000000.123"))
 			rc.hi = int64(time.Since(start))
@@ -269,13 +321,12 @@ func runCase(seed uint64, idx int) (coq string, desc map[string]interface{}, cls
 				rc.outs = append(rc.outs, "Panic")
 			}
 			hops[i] = fmt.Sprintf("HPush None %d %d", rc.lo, rc.hi)
-			text = append(text, "pushraw malformed")
 		case opPushNil:
+			text = append(text, "push nil")
 			rc.lo = int64(time.Since(start))
 			ra.PushMessage(nil)
 			rc.hi = int64(time.Since(start))
 			hops[i] = fmt.Sprintf("HPush None %d %d", rc.lo, rc.hi)
-			text = append(text, "push nil")
 		case opMaintain:
 			rc.lo = int64(time.Since(start))
 			err := ra.Maintain()
@@ -291,6 +342,49 @@ func runCase(seed uint64, idx int) (coq string, desc map[string]interface{}, cls
 		}
 		text = append(text, rc.text...)
 		deliveries += len(rc.text)
+	}
+	if kind == "reentrant" {
+		// the Stream pushes further records and calls Maintain from inside its callbacks (single goroutine)
+		rn := sx.Fork(seed, uint64(idx)+7<<32)
+		nested, depth, nmid := 0, 0, 100000
+		s.onDeliver = func(seq uint32) {
+			if len(s.pending) > 0 {
+				p := s.pending
+				s.pending = nil
+				for _, x := range p {
+					exec(x)
+				}
+				return
+			}
+			if nested >= 8 || depth >= 2 || !rn.Chance(2, 5) {
+				return
+			}
+			depth++
+			for k := 1 + rn.Intn(2); k > 0; k-- {
+				nested++
+				if rn.Chance(1, 5) {
+					exec(op{kind: opMaintain})
+					continue
+				}
+				o := op{kind: opPush, mid: nmid, typ: sx.Pick(rn, []int{1300, 1302, 1320, 1320, 1100})}
+				nmid++
+				switch rn.Intn(4) {
+				case 0:
+					o.seq = seq // a late record for the event being delivered
+				case 1:
+					o.seq = seq + 1
+				case 2:
+					o.seq = seq + uint32(rn.Intn(4))
+				default:
+					o.seq = seq - uint32(rn.Intn(3))
+				}
+				exec(o)
+			}
+			depth--
+		}
+	}
+	for _, o := range ops {
+		exec(o)
 	}
 	obs := make([]string, len(recs))
 	for i, rc := range recs {
